@@ -225,6 +225,32 @@ def ob_cert_try_new(run, oid):
             o.check(ok, "Cert::%s|%s" % (fn, kind), "Cert::%s dispatches to %s::%s and returns its verdict" % (kind, st, fn), cb.span)
 
 
+def ob_try_new_complete(run, oid):
+    """completeness of the two validation doors: nothing but the reviewed checks stands between a vote / certificate and its admission"""
+    prog = run.program("lib")
+    o = run.ob(oid, "ValidatedVote::try_new / ValidatedCert::try_new admit whatever passes the reviewed checks: no further condition (stake, slot, kind ..) filters",
+               "a vote that is authentic but filtered never reaches the pool: repeats and conflicts of that validator go unreported, and a certificate one node "
+               "emitted is refused by another", floor=2)
+    b = prog.body(VV + "::try_new")
+    if b is None:
+        o.missing("ValidatedVote::try_new")
+    else:
+        for (bb, rv, sp, dst), key in K.ordinal_keys(b.aggregates(VV), lambda x: "ValidatedVote::try_new|Ok"):
+            rec = [lambda a: a[0] == "lt" and a[2] is True and K.mentions_call(a[1][0], "Vote::signer"),
+                   lambda a: a[0] == "bool" and a[2] is True and a[1][0][0] == "call" and a[1][0][1] == VOTE + "Vote::check_sig"]
+            ex = D.extra_guards(prog, b, bb, rec)
+            o.check(not ex, key + "|no-other-condition", "only the signer range check and check_sig stand before Ok", sp, {"extra": G.atoms_show(ex)})
+    b = prog.body(VC + "::try_new")
+    if b is None:
+        o.missing("ValidatedCert::try_new")
+    else:
+        for (bb, rv, sp, dst), key in K.ordinal_keys(b.aggregates(VC), lambda x: "ValidatedCert::try_new|Ok"):
+            rec = [lambda a: a[0] == "bool" and a[2] is True and a[1][0][0] == "call" and a[1][0][1] in (CERT + "Cert::check_threshold", CERT + "Cert::check_sig")]
+            ex = D.extra_guards(prog, b, bb, rec)
+            o.check(not ex, key + "|no-other-condition", "only check_threshold and check_sig stand before Ok", sp, {"extra": G.atoms_show(ex)})
+    return o
+
+
 def ob_threshold_validation(run, oid):
     """O9.5 / O1.3 validation side"""
     prog = run.program("lib")
@@ -241,6 +267,10 @@ def ob_threshold_validation(run, oid):
         if not ok:
             continue
         stake = b.operand_term(q[0].args[1])
+        halves0 = [f for (s2, f) in SIG_TABLE if s2 == st]
+        if _loop_threshold(prog, b, stake, halves0, st, o, "%s::check_threshold" % st):
+            o.check(not any(n == "stake" and ow.endswith(st) for (_bb, ow, n, _sp) in b.field_reads()), "%s::check_threshold|ignores-declared" % st, "the declared self.stake is not read", b.span)
+            continue
         pv = b.provenance(stake)
         ok = any(x.endswith("Iterator::sum") for x in pv["calls"]) and any(x.endswith("Iterator::filter") or x.endswith("Iterator::filter_map") for x in pv["calls"]) and any(x == EPOCH + "validators" for x in pv["calls"])
         o.check(ok, "%s::check_threshold|recomputed" % st, "stake = sum over epoch_info.validators() filtered by the bitmask", b.span, {"stake": mir.show(stake)[:200]})
@@ -510,10 +540,11 @@ def ob_bitmask_access(run, oid):
         o.check(not (names & set(raw)), "AggregateSignature::signers|bounded-api", "signers() enumerates the set bits through the length-bounded API (iter_ones / get / indexing below len)", sb.span, {"calls": sorted(names)[:8]})
 
 
-def _or_of_halves(prog, cb, halves, st):
-    """the membership closure of a two-half certificate, in any spelling: over (half i present, validator is signer of half i) the closure
-    keeps the validator exactly when it is a signer of a present half"""
-    rows = [r for r in paths.decision_table(cb, prog) if r[1] is not None]
+def _or_of_halves(prog, cb, halves, st, rows=None, ignorable=None):
+    """the membership test of a certificate, in any spelling: over (half i present, validator is signer of half i) the validator is kept
+    exactly when it is a signer of a present half. `rows` = (atoms, outcome term or bool, blocks); default: the closure's decision table"""
+    if rows is None:
+        rows = [r for r in paths.decision_table(cb, prog) if r[1] is not None]
     if not rows:
         return False
 
@@ -526,6 +557,10 @@ def _or_of_halves(prog, cb, halves, st):
         t = K.peel(t)
         if isinstance(t, tuple) and t and t[0] == "const" and t[2] in (0, 1):
             return bool(t[2])
+        if isinstance(t, tuple) and t and t[0] == "call" and t[1].endswith(("bool::then_some", "bool::then")) and t[2]:
+            return term_val(t[2][0], asg)       # filter_map(|v| cond.then_some(v.stake)): kept iff cond
+        if isinstance(t, tuple) and t and t[0] == "agg" and t[1].endswith("option::Option"):
+            return t[2] == "Some"
         h = which(t) if isinstance(t, tuple) else None
         if h is None:
             return None
@@ -548,16 +583,19 @@ def _or_of_halves(prog, cb, halves, st):
             return None if v is None else (v == a[2])
         return None
     import itertools
-    for vals in itertools.product([False, True], repeat=4):
-        asg = {(halves[0], "some"): vals[0], (halves[0], "sig"): vals[1], (halves[1], "some"): vals[2], (halves[1], "sig"): vals[3]}
-        if (asg[(halves[0], "sig")] and not asg[(halves[0], "some")]) or (asg[(halves[1], "sig")] and not asg[(halves[1], "some")]):
+    for vals in itertools.product([False, True], repeat=2 * len(halves)):
+        asg = {}
+        for i, h in enumerate(halves):
+            asg[(h, "some")] = vals[2 * i]
+            asg[(h, "sig")] = vals[2 * i + 1]
+        if any(asg[(h, "sig")] and not asg[(h, "some")] for h in halves):
             continue
-        want = asg[(halves[0], "sig")] or asg[(halves[1], "sig")]
+        want = any(asg[(h, "sig")] for h in halves)
         got = []
         for atoms, ret, _bl in rows:
             hold = True
             for a in atoms:
-                if D.is_structural_atom(a):
+                if D.is_structural_atom(a) or (ignorable is not None and ignorable(a)):
                     continue
                 v = atom_val(a, asg)
                 if v is None:
@@ -566,12 +604,67 @@ def _or_of_halves(prog, cb, halves, st):
                     hold = False
                     break
             if hold:
-                rv = term_val(ret, asg)
+                rv = ret if isinstance(ret, bool) else term_val(ret, asg)
                 if rv is None:
                     return False
                 got.append(rv)
         if not got or any(g != want for g in got):
             return False
+    return True
+
+
+def _loop_threshold(prog, b, stake, halves, st, o, key):
+    """check_threshold spelled as a loop: `let mut s = Stake::default(); for v in epoch_info.validators() { if <member> { s += v.stake } }`.
+    Decides the same four clauses as the iterator form; returns True when the loop form was recognised"""
+    t = K.peel(stake)
+    if not (isinstance(t, tuple) and t and t[0] == "local"):
+        return False
+    l = t[1]
+    adds = []
+    for c in b.calls():
+        last = mir.strip_generics(c.name).rsplit("::", 1)[-1]
+        if last in ("add_assign",) and c.args:
+            a0 = K.peel(b.operand_term(c.args[0]))
+            if isinstance(a0, tuple) and a0 and a0[0] == "local" and a0[1] == l:
+                adds.append(c)
+    if not adds:
+        return False
+    loops = [(h, nodes) for (h, nodes) in b.loops() if all(c.bb in nodes for c in adds)]
+    if len(loops) != 1:
+        return False
+    header, nodes = loops[0]
+    # the other definition(s) of the accumulator: zero
+    inits = [d for d in b.defs().get(l, []) if d[1] not in nodes]
+    zero = bool(inits) and all(D.vclass(prog, b, b.call_term(d[1], d[3]) if d[0] == "call" else b.rvalue_term(d[3]["rv"])) in (["type-default"], ["newtype", "types::stake::Stake", 0], ["const", 0]) for d in inits)
+    src = b.operand_term(adds[0].args[1])
+    pv = b.provenance(src)
+    over_validators = any(x == EPOCH + "validators" for x in pv["calls"]) and any(x.endswith("::next") for x in pv["calls"])
+    o.check(len(adds) == 1 and zero and over_validators, key + "|recomputed", "stake = sum over epoch_info.validators() filtered by the bitmask (accumulator starting at zero, one `+=` per validator)", b.span,
+            {"adds": len(adds), "zero-init": zero})
+    o.check(K.is_field(src, "stake") and not K.mentions_field(src, "stake", st), key + "|validator-stake", "sums ValidatorInfo.stake of the epoch", adds[0].span, {"added": mir.show(src)[:80]})
+    flds = set()
+    for c in b.calls():
+        if c.name.endswith("AggregateSignature::is_signer") and c.bb in nodes:
+            flds |= set(n for (ow, n) in b.provenance(b.operand_term(c.args[0]), depth=8)["fields"] if ow.endswith(st) and n != "stake")
+    o.check(flds == set(halves), key + "|membership", "a validator counts iff is_signer in {%s}" % ", ".join(halves), b.span, {"fields": sorted(flds)})
+    # one iteration as a table: the add is reached exactly for signers of a present half
+    nxt = [c for c in b.calls() if c.bb in nodes and c.name.endswith("::next")]
+    start = None
+    for c in nxt:
+        sw = b.blocks[c.target]["term"] if c.target is not None else None
+        if sw and sw["k"] == "switch":
+            for (v, tb) in sw["arms"]:
+                if str(v) == "1":
+                    start = tb
+    ok = False
+    if start is not None:
+        try:
+            rows = [(atoms, out == ("stop", adds[0].bb), bl) for (atoms, out, bl) in paths.region_table(b, prog, start, [adds[0].bb], header)]
+            ign = lambda a: K.mentions(a[1][0], lambda y: isinstance(y, tuple) and y and y[0] == "call" and y[1].endswith("::next")) and not K.mentions_call(a[1][0], "is_signer") if a[1] and isinstance(a[1][0], tuple) else False
+            ok = _or_of_halves(prog, b, halves, st, rows=rows, ignorable=None)
+        except paths.TooManyPaths:
+            ok = False
+    o.check(bool(ok), key + "|or-once", "within one iteration the stake is added exactly when the validator signed a present half (each validator counted once)", adds[0].span)
     return True
 
 
